@@ -25,6 +25,17 @@ def genBytes : Nat → Rng → List Byte × Rng
     let (rest, r2) := genBytes k r1
     (UInt8.ofNat x :: rest, r2)
 
+/-- opaque payloads: random bytes, or (one time in three) a single byte repeated — all zeros, all ones, spaces —
+    the contents real protocols are full of (anonymous ids, zero verifiers, padding-like data) -/
+def fillOf (n : Nat) (b : Byte) : List Byte := List.replicate n b
+
+def genPayload (n : Nat) (r : Rng) : List Byte × Rng :=
+  match r.below 6 with
+  | (0, r1) => (fillOf n 0, r1)
+  | (1, r1) => (fillOf n 0xFF, r1)
+  | (2, r1) => (fillOf n 0x20, r1)
+  | (_, r1) => genBytes n r1
+
 def genAscii : Nat → Rng → List Byte × Rng
   | 0, r => ([], r)
   | k+1, r =>
@@ -53,6 +64,9 @@ def genLen (lim : Option Nat) (small : Nat) (r : Rng) : Nat × Rng :=
   let (c, r1) := r.below 8
   match lim with
   | some m =>
+    -- a huge declared maximum (2^31, 2^32-1, …) is never reached by a generated value
+    if m > 2048 then (if c = 1 then (0, r1) else let (k, r2) := r1.below (small + 1); (k, r2))
+    else
     if r1.victim = 1 then (m + 1, { r1 with victim := 0, hit := true })
     else
     let r1 := if r1.victim > 1 then { r1 with victim := r1.victim - 1 } else r1
@@ -89,8 +103,8 @@ def genArr (a : Ast) : Nat → Nat → ArrayType → Rng → XVal × Rng
     | .variable t max =>
       let lim := max.bind (boundValue a)
       (match t with
-       | .opaque => let (n, r1) := genLen lim 9 r; let (bs, r2) := genBytes n r1; (.varOpaque bs, r2)
-       | .string => let (n, r1) := genLen lim 9 r; let (bs, r2) := genUtf8 (n + 1) n r1; (.str bs, r2)
+       | .opaque => let (n, r1) := genLen lim 17 r; let (bs, r2) := genPayload n r1; (.varOpaque bs, r2)
+       | .string => let (n, r1) := genLen lim 21 r; let (bs, r2) := genUtf8 (n + 1) n r1; (.str bs, r2)
        | t =>
          let (n, r1) := genLen lim (if depth ≥ 3 then 1 else 3) r
          let fired := r1.hit && !r.hit
@@ -109,8 +123,8 @@ def genBasic (a : Ast) : Nat → Nat → BasicType → Rng → XVal × Rng
     | .f32 => let (w, r1) := genWord r; (.f32 w, r1)
     | .f64 => let (w, r1) := genWord64 r; (.f64 w, r1)
     | .bool => let (w, r1) := r.below 2; (.bool (w == 1), r1)
-    | .string => let (n, r1) := genLen none 9 r; let (bs, r2) := genUtf8 (n + 1) n r1; (.str bs, r2)
-    | .opaque => let (n, r1) := genLen none 9 r; let (bs, r2) := genBytes n r1; (.varOpaque bs, r2)
+    | .string => let (n, r1) := genLen none 21 r; let (bs, r2) := genUtf8 (n + 1) n r1; (.str bs, r2)
+    | .opaque => let (n, r1) := genLen none 17 r; let (bs, r2) := genPayload n r1; (.varOpaque bs, r2)
     | .ident n => genNamed a fuel depth n r
 def genNamed (a : Ast) : Nat → Nat → String → Rng → XVal × Rng
   | 0, _, _, r => (.void, r)
